@@ -640,5 +640,62 @@ pub proof fn lemma_cross_type<T: TypeHash + AlignHash, U: TypeHash + AlignHash>(
     assert(s6.subrange(8, 8 + nb.len() as int) =~= nb);
 }
 
+
+/// C11 for the header: the header is self-delimiting. If a stream passes the header check,
+/// every prefix that cuts into the header is `Short`, and every prefix that contains the
+/// header passes as well, leaving the corresponding prefix of the rest.
+pub proof fn lemma_hdr_prefix<T: TypeHash + AlignHash>(s: Seq<u8>, k: nat)
+    requires hdr_table::<T>(s) is Pass, k <= s.len(),
+    ensures hdr_table::<T>(s)->Pass_0 <= s.len(),
+        k < hdr_table::<T>(s)->Pass_0 ==> hdr_table::<T>(s.take(k as int)) is Short,
+        k >= hdr_table::<T>(s)->Pass_0 ==> hdr_table::<T>(s.take(k as int)) == hdr_table::<T>(s)
+            && hdr_rest(s.take(k as int)) =~= hdr_rest(s).take(k - hdr_table::<T>(s)->Pass_0),
+{
+    let p = s.take(k as int);
+    let s6 = hdr_after_fixed(s);
+    let n7 = String::parse(s6, 29)->Val_1;
+    assert(s.len() >= 29);
+    assert(s6.len() == s.len() - 29);
+    if k >= 8 { assert(p.take(8) =~= s.take(8)); }
+    if k >= 10 { assert(p.skip(8).take(2) =~= s.skip(8).take(2)); }
+    if k >= 12 { assert(p.skip(8).skip(2).take(2) =~= s.skip(8).skip(2).take(2)); }
+    if k >= 13 { assert(p.skip(8).skip(2).skip(2).take(1) =~= s.skip(8).skip(2).skip(2).take(1)); }
+    if k >= 21 { assert(p.skip(8).skip(2).skip(2).skip(1).take(8) =~= s.skip(8).skip(2).skip(2).skip(1).take(8)); }
+    if k >= 29 {
+        assert(p.skip(8).skip(2).skip(2).skip(1).skip(8).take(8) =~= s.skip(8).skip(2).skip(2).skip(1).skip(8).take(8));
+        assert(hdr_after_fixed(p) =~= s6.take(k - 29));
+        String::lemma_prefix(s6, 29, (k - 29) as nat);
+        if k >= 29 + n7 {
+            assert(hdr_rest(p) =~= hdr_rest(s).take(k - 29 - n7));
+        }
+    }
+}
+
+/// C11 for whole streams, through the entry point's contract: if a stream is accepted and
+/// the value parses, then every strict prefix of header ++ value lands on a row / parse
+/// result that `deserialize_full` answers with a read error (`Short` header, or accepted
+/// header followed by a `Short` value) - never with a value
+pub proof fn lemma_stream_prefix<T: DeserializeInner + TypeHash + AlignHash>(s: Seq<u8>, k: nat)
+    requires hdr_table::<T>(s) is Pass,
+        T::parse(hdr_rest(s), hdr_table::<T>(s)->Pass_0) is Val,
+        k < hdr_table::<T>(s)->Pass_0 + T::parse(hdr_rest(s), hdr_table::<T>(s)->Pass_0)->Val_1,
+    ensures k <= s.len(),
+        hdr_table::<T>(s.take(k as int)) is Short
+        || (hdr_table::<T>(s.take(k as int)) == hdr_table::<T>(s)
+            && T::parse(hdr_rest(s.take(k as int)), hdr_table::<T>(s)->Pass_0) is Short),
+{
+    let n = hdr_table::<T>(s)->Pass_0;
+    T::lemma_prefix(hdr_rest(s), n, 0);
+    lemma_hdr_prefix::<T>(s, 0);
+    assert(hdr_rest(s).len() == s.len() - n) by {
+        let s6 = hdr_after_fixed(s);
+        String::lemma_prefix(s6, 29, 0);
+    }
+    lemma_hdr_prefix::<T>(s, k);
+    if k >= n {
+        T::lemma_prefix(hdr_rest(s), n, (k - n) as nat);
+    }
+}
+
 } // verus!
 fn main() {}
